@@ -218,6 +218,7 @@ def run(ctx, rep):
     c04_recursion.run_fanout(ctx, rep)
     c04_recursion.run_depth(ctx, rep)
     c04_recursion.run_threads(ctx, rep)
+    c04_recursion.run_fmtself(ctx, rep)
 
 
 CLIPPY_LINTS = ["unwrap_used", "expect_used", "panic", "todo", "unimplemented", "unreachable", "indexing_slicing", "string_slice"]
